@@ -210,9 +210,16 @@ def histCheck (o : Obj) (impl : List String) (spec : Ans Float) : String :=
 def specOf (o : Obj) (op : Op Float) : Ans Float :=
   let t := o.tab.model
   match o.core with
-  | .resc r => rescSpec t r.bps op
-  | .log g => logSpec t g.bps op
+  | .resc r => rescSpec t r.bps r.dVar r.d2Var op
+  | .log g => logSpec t g.bps g.dVar g.d2Var op
   | .low l => lowSpec t l.maxSize l.bps op
+
+/-- the precondition of the per-site derivative accessors (`Hmm.derivNamesOk`) -/
+def namesOk (o : Obj) (second : Bool) : Bool :=
+  match o.core with
+  | .resc r => r.dVar != "" && (!second || r.d2Var != "")
+  | .log g => g.dVar != "" && (!second || g.d2Var != "")
+  | .low _ => true
 
 def both (a b : String) : String := if a.startsWith "FAIL" then a else if b.startsWith "FAIL" then b else if a == "-" then b else a
 
@@ -395,6 +402,52 @@ def derivVerdict (o : Obj) (impl : List String) (var : String) (order : Nat) : S
           if !(Float.abs (ratToFloat d1) < 1e140) || !rangeOkAt (if order == 1 then 1e-140 else 1e-95) t o.bps then "-" else
           if Float.abs (x - want) ≤ 1e-7 * (if Float.abs want > 1.0 then Float.abs want else 1.0) then "ok"
           else if order == 1 then "FAIL:derivative1" else "FAIL:derivative2"
+  | _ => "FAIL:parse"
+
+/-- verdict on a per-site derivative term (both classes): the term of site `i` is the derivative of
+`log P(x_i | x_start..i-1)` = `d log L(start..i) − d log L(start..i-1)`, `start` the first position of the
+segment of `i` and `L` the exact likelihood of a prefix of the segment (affine in the emission entry) -/
+def derivSiteVerdict (o : Obj) (impl : List String) (site : Nat) (second : Bool) : String :=
+  match impl with
+  | [a] =>
+    match implFloat? a with
+    | none => "FAIL:parse"
+    | some x =>
+      let t := o.tab
+      let (var, var2) := match o.core with | .resc r => (r.dVar, r.d2Var) | .log g => (g.dVar, g.d2Var) | .low _ => ("", "")
+      -- the second-order accessor of the rescaled class mixes the arrays of the two variables when they differ
+      if second && var != var2 then "-" else
+      let applicable := match o.core with | .resc _ => stationary t | .log _ => t.positive | .low _ => false
+      if !t.nonneg || !applicable || !validBreaks t.T o.bps || !rangeOkAt 1e-95 t o.bps then "-" else
+      if !var.startsWith "e" then "-" else
+      match parse2 (var.drop 1).toString with
+      | none => "-"
+      | some (sv, j) =>
+        if sv ≥ t.T || j ≥ t.n then "-" else
+        -- exact prefix likelihoods of the segment that contains `hi`: tables cut to the positions lo..hi
+        let segStart (i : Nat) : Nat := (o.bps.filter (· ≤ i)).foldl (fun a b => if b > a then b else a) 0
+        let prefixD (lo hi : Nat) : Option (Rat × Rat) :=
+          -- d/de log L and d²/de² log L of the positions lo..hi (chain started at lo)
+          let sub : DTables := { t with E := (t.E.toList.drop (lo * t.n)).take ((hi + 1 - lo) * t.n) |>.toArray }
+          if sv < lo || sv > hi then some (0, 0) else
+          match exactLik' sub [] none, exactLik' sub [] (some ((sv - lo) * t.n + j)) with
+          | some l0, some l1 => if l0 == 0 then none else let b := (l1 - l0) / l0; some (b, -(b * b))
+          | _, _ => none
+        match o.core with
+        | .low _ => "-"
+        | _ =>
+          let lo := segStart site
+          let cur := prefixD lo site
+          let prev := if site == lo then some (0, 0) else prefixD lo (site - 1)
+          match cur, prev with
+          | some (c1, c2), some (p1, p2) =>
+            let want := ratToFloat (if second then c2 - p2 else c1 - p1)
+            -- the log-sum class subtracts two prefix derivatives that are each O(|d log L|): absolute tolerance
+            let scale := Float.abs (ratToFloat c1) + Float.abs (ratToFloat p1) + 1.0
+            let tol := if second then 1e-7 * scale * scale else 1e-7 * scale
+            if Float.abs (x - want) ≤ tol then "ok"
+            else if second then "FAIL:derivative2_site" else "FAIL:derivative1_site"
+          | _, _ => "-"
   | _ => "FAIL:parse"
 
 /-! ## built-in transition models -/
@@ -747,23 +800,33 @@ def step (s : St) (op : List String) (impl : Option (List String)) : St × Strin
         let (o1, a) := runOp o mop
         (s.put k o1, showAns a, both (siteVerdict o impl none)
           (match impl with | some im => if isExc im then "-" else histCheck o im (specOf o mop) | none => "-"))
+      | "dsite", [site] | "d2site", [site] =>
+        -- getDLogLikelihoodForASite / getD2LogLikelihoodForASite
+        match nat? site with
+        | none => (s, "bad-op", "-")
+        | some i =>
+          let second := op.head! == "d2site"
+          let mop : Op Float := if second then .d2Site i else .dSite i
+          let (o1, a) := runOp o mop
+          match a with
+          | .ub => (s, "ub", "-")     -- the harness refuses these (out of range of the array that is read)
+          | _ =>
+            (s.put k o1, showAns a,
+              match impl with
+              | some im => if isExc im || o.stale || !namesOk o second then "-" else
+                  both (derivSiteVerdict o im i second) (histCheck o im (specOf o mop))
+              | none => "-")
       | dop, [var] =>
         if dop != "d1" && dop != "d2" then (s, "bad-op", "-") else
         let mop : Op Float := if dop == "d1" then .d1 var else .d2 var
         let (o1, a) := runOp o mop
-        match o.core with
-        | .log _ =>
-          -- not modelled: the answer is echoed, and judged against the exact derivative
-          (s, match impl with | some i => " ".intercalate i | none => "unmodelled",
-            match impl with
-            | some i => if isExc i || var == "" then "-" else derivVerdict o i var (if dop == "d1" then 1 else 2)
-            | none => "-")
-        | _ => (s.put k o1, showAns a,
+        let o2 := match a with | .exc => { o1 with stale := true } | _ => o1
+        (s.put k o2, showAns a,
             match impl with
             | some i => if isExc i || var == "" then "-" else
                 (match o.core with
-                 | .resc _ => both (derivVerdict o i var (if dop == "d1" then 1 else 2)) (histCheck o i (specOf o mop))
-                 | _ => "-")
+                 | .low _ => "-"
+                 | _ => both (derivVerdict o i var (if dop == "d1" then 1 else 2)) (histCheck o i (specOf o mop)))
             | none => "-")
       | _, _ => (s, "bad-op", "-")
   | _ => (s, "bad-op", "-")
